@@ -8,8 +8,10 @@ import (
 	"strings"
 
 	gblas "gonum.org/v1/gonum/blas"
+	"gonum.org/v1/gonum/blas/blas64"
 	"gonum.org/v1/gonum/lapack"
 	lgonum "gonum.org/v1/gonum/lapack/gonum"
+	"gonum.org/v1/gonum/lapack/lapack64"
 
 	"gonum.org/v1/gonum/verifharness/internal/core"
 )
@@ -39,8 +41,96 @@ func (c *lcall) storev(i int) lapack.StoreV {
 	return flagByte(c.f[i], []lapack.StoreV{lapack.ColumnWise, lapack.RowWise}, c.salt+i)
 }
 
+func (c *lcall) uplo3(i int) gblas.Uplo {
+	return flagByte(c.f[i], []gblas.Uplo{gblas.Upper, gblas.Lower, gblas.All}, c.salt+i)
+}
+func (c *lcall) svdjob(i int) lapack.SVDJob {
+	return flagByte(c.f[i], []lapack.SVDJob{lapack.SVDAll, lapack.SVDStore, lapack.SVDNone}, c.salt+i)
+}
+func (c *lcall) evjob(i int) lapack.EVJob {
+	return flagByte(c.f[i], []lapack.EVJob{lapack.EVNone, lapack.EVCompute}, c.salt+i)
+}
+func (c *lcall) levjob(i int) lapack.LeftEVJob {
+	return flagByte(c.f[i], []lapack.LeftEVJob{lapack.LeftEVNone, lapack.LeftEVCompute}, c.salt+i)
+}
+func (c *lcall) revjob(i int) lapack.RightEVJob {
+	return flagByte(c.f[i], []lapack.RightEVJob{lapack.RightEVNone, lapack.RightEVCompute}, c.salt+i)
+}
+func (c *lcall) norm4(i int) lapack.MatrixNorm {
+	return flagByte(c.f[i], []lapack.MatrixNorm{lapack.MaxAbs, lapack.MaxColumnSum, lapack.MaxRowSum, lapack.Frobenius}, c.salt+i)
+}
+func (c *lcall) norm2(i int) lapack.MatrixNorm {
+	return flagByte(c.f[i], []lapack.MatrixNorm{lapack.MaxColumnSum, lapack.MaxRowSum}, c.salt+i)
+}
+func (c *lcall) genortho(i int) lapack.GenOrtho {
+	return flagByte(c.f[i], []lapack.GenOrtho{lapack.GenerateQ, lapack.GeneratePT}, c.salt+i)
+}
+func (c *lcall) applyortho(i int) lapack.ApplyOrtho {
+	return flagByte(c.f[i], []lapack.ApplyOrtho{lapack.ApplyQ, lapack.ApplyP}, c.salt+i)
+}
+
 // ltab passes the fields of a call to gonum in the argument order of the API. No arithmetic.
 var ltab = map[string]func(c *lcall){
+	"Dgels": func(c *lcall) {
+		limpl.Dgels(c.trans(0), c.d[0], c.d[1], c.d[2], c.fl["a"], c.ld["a"], c.fl["b"], c.ld["b"], c.fl["work"], c.lwork)
+	},
+	"Dgesvd": func(c *lcall) {
+		limpl.Dgesvd(c.svdjob(0), c.svdjob(1), c.d[0], c.d[1], c.fl["a"], c.ld["a"], c.fl["s"], c.fl["u"], c.ld["u"], c.fl["vt"], c.ld["vt"], c.fl["work"], c.lwork)
+	},
+	"Dsyev": func(c *lcall) {
+		limpl.Dsyev(c.evjob(0), c.uplo(1), c.d[0], c.fl["a"], c.ld["a"], c.fl["w"], c.fl["work"], c.lwork)
+	},
+	"Dsytrd": func(c *lcall) {
+		limpl.Dsytrd(c.uplo(0), c.d[0], c.fl["a"], c.ld["a"], c.fl["d"], c.fl["e"], c.fl["tau"], c.fl["work"], c.lwork)
+	},
+	"Dorgtr": func(c *lcall) {
+		limpl.Dorgtr(c.uplo(0), c.d[0], c.fl["a"], c.ld["a"], c.fl["tau"], c.fl["work"], c.lwork)
+	},
+	"Dgeev": func(c *lcall) {
+		limpl.Dgeev(c.levjob(0), c.revjob(1), c.d[0], c.fl["a"], c.ld["a"], c.fl["wr"], c.fl["wi"], c.fl["vl"], c.ld["vl"], c.fl["vr"], c.ld["vr"], c.fl["work"], c.lwork)
+	},
+	"Dtrcon": func(c *lcall) {
+		limpl.Dtrcon(c.norm2(0), c.uplo(1), c.diag(2), c.d[0], c.fl["a"], c.ld["a"], c.fl["work"], c.iv["iwork"])
+	},
+	"Dgecon": func(c *lcall) { limpl.Dgecon(c.norm2(0), c.d[0], c.fl["a"], c.ld["a"], 1, c.fl["work"], c.iv["iwork"]) },
+	"Dpocon": func(c *lcall) { limpl.Dpocon(c.uplo(0), c.d[0], c.fl["a"], c.ld["a"], 1, c.fl["work"], c.iv["iwork"]) },
+	"Dlansy": func(c *lcall) { limpl.Dlansy(c.norm4(0), c.uplo(1), c.d[0], c.fl["a"], c.ld["a"], c.fl["work"]) },
+	"Dgehrd": func(c *lcall) {
+		limpl.Dgehrd(c.d[0], c.d[1], c.d[2], c.fl["a"], c.ld["a"], c.fl["tau"], c.fl["work"], c.lwork)
+	},
+	"Dorghr": func(c *lcall) {
+		limpl.Dorghr(c.d[0], c.d[1], c.d[2], c.fl["a"], c.ld["a"], c.fl["tau"], c.fl["work"], c.lwork)
+	},
+	"Dgeqp3": func(c *lcall) {
+		limpl.Dgeqp3(c.d[0], c.d[1], c.fl["a"], c.ld["a"], c.iv["jpvt"], c.fl["tau"], c.fl["work"], c.lwork)
+	},
+	"Dgebrd": func(c *lcall) {
+		limpl.Dgebrd(c.d[0], c.d[1], c.fl["a"], c.ld["a"], c.fl["d"], c.fl["e"], c.fl["tauq"], c.fl["taup"], c.fl["work"], c.lwork)
+	},
+	"Dlacpy": func(c *lcall) { limpl.Dlacpy(c.uplo3(0), c.d[0], c.d[1], c.fl["a"], c.ld["a"], c.fl["b"], c.ld["b"]) },
+	"Dlaset": func(c *lcall) { limpl.Dlaset(c.uplo3(0), c.d[0], c.d[1], 2, 3, c.fl["a"], c.ld["a"]) },
+	"Dlange": func(c *lcall) { limpl.Dlange(c.norm4(0), c.d[0], c.d[1], c.fl["a"], c.ld["a"], c.fl["work"]) },
+	"Dlantr": func(c *lcall) {
+		limpl.Dlantr(c.norm4(0), c.uplo(1), c.diag(2), c.d[0], c.d[1], c.fl["a"], c.ld["a"], c.fl["work"])
+	},
+	"Dpbtrs": func(c *lcall) {
+		limpl.Dpbtrs(c.uplo(0), c.d[0], c.d[1], c.d[2], c.fl["a"], c.ld["a"], c.fl["b"], c.ld["b"])
+	},
+	"Dpbtrf": func(c *lcall) { limpl.Dpbtrf(c.uplo(0), c.d[0], c.d[1], c.fl["a"], c.ld["a"]) },
+	"Dtbtrs": func(c *lcall) {
+		limpl.Dtbtrs(c.uplo(0), c.trans(1), c.diag(2), c.d[0], c.d[1], c.d[2], c.fl["a"], c.ld["a"], c.fl["b"], c.ld["b"])
+	},
+	"Dgtsv": func(c *lcall) { limpl.Dgtsv(c.d[0], c.d[1], c.fl["dl"], c.fl["d"], c.fl["du"], c.fl["b"], c.ld["b"]) },
+	"Dptsv": func(c *lcall) { limpl.Dptsv(c.d[0], c.d[1], c.fl["d"], c.fl["e"], c.fl["b"], c.ld["b"]) },
+	"Dorgbr": func(c *lcall) {
+		limpl.Dorgbr(c.genortho(0), c.d[0], c.d[1], c.d[2], c.fl["a"], c.ld["a"], c.fl["tau"], c.fl["work"], c.lwork)
+	},
+	"Dormbr": func(c *lcall) {
+		limpl.Dormbr(c.applyortho(0), c.side(1), c.trans(2), c.d[0], c.d[1], c.d[2], c.fl["a"], c.ld["a"], c.fl["tau"], c.fl["c"], c.ld["c"], c.fl["work"], c.lwork)
+	},
+	"Dormhr": func(c *lcall) {
+		limpl.Dormhr(c.side(0), c.trans(1), c.d[0], c.d[1], c.d[2], c.d[3], c.fl["a"], c.ld["a"], c.fl["tau"], c.fl["c"], c.ld["c"], c.fl["work"], c.lwork)
+	},
 	"Dgetrf": func(c *lcall) { limpl.Dgetrf(c.d[0], c.d[1], c.fl["a"], c.ld["a"], c.iv["ipiv"]) },
 	"Dgetf2": func(c *lcall) { limpl.Dgetf2(c.d[0], c.d[1], c.fl["a"], c.ld["a"], c.iv["ipiv"]) },
 	"Dgetrs": func(c *lcall) {
@@ -169,262 +259,303 @@ func runLapack(raw json.RawMessage, salt int, sum *core.Summary, st *cstats) err
 	if len(k.Hard) == 1 {
 		st.sole[k.R+"|"+k.Hard[0]] = true
 	}
-	name := k.R
-	failed := false
-	fail := func(kind, msg string) {
-		detail := "multi"
-		if len(k.Hard) == 1 {
-			detail = k.Hard[0]
-		} else if len(k.Hard) == 0 {
-			detail = "valid"
-			if len(k.Soft) > 0 {
-				detail = "open"
+	exec := func(name string, f func(*lcall)) {
+		failed := false
+		fail := func(kind, msg string) {
+			detail := "multi"
+			if len(k.Hard) == 1 {
+				detail = k.Hard[0]
+			} else if len(k.Hard) == 0 {
+				detail = "valid"
+				if len(k.Soft) > 0 {
+					detail = "open"
+				}
+			}
+			sig := fmt.Sprintf("contract:lapack:%s:%s:%s", name, kind, detail)
+			switch kind {
+			case "runtime-error", "foreign-panic", "valid-rejected", "out-of-slice-write", "hang":
+				// which code path: the flag codes and the sign pattern of the dimensions
+				sig += ":f=" + codes(k.F) + ":d=" + signs(k.D)
+			}
+			st.failures++
+			failed = true
+			key := sig + "|" + buildName
+			if st.seen[key] {
+				return
+			}
+			st.seen[key] = true
+			sum.Fail(sig, fmt.Sprintf("%s [%s build] %s: %s", name, buildName, string(raw), msg), raw)
+		}
+
+		c := &lcall{f: k.F, d: k.D, salt: salt, fl: map[string][]float64{}, ld: map[string]int{}, iv: map[string][]int{}, inc: k.Inc, lwork: k.Lwork}
+		hasWork := k.Lwk != "none"
+		workLen := k.Work
+		if k.Lwk == "opt" {
+			// the routine's own workspace query supplies the value of lwork; the specification says how
+			// long the work slice is relative to it
+			q := *c
+			q.fl = map[string][]float64{"work": make([]float64, 1)}
+			q.ld = map[string]int{}
+			for _, m := range k.Mats {
+				q.ld[m.Name] = m.Ld
+			}
+			q.iv = map[string][]int{}
+			q.lwork = -1
+			// probe: the usual LAPACK idiom, a workspace query with nil matrices and vectors. The documentation
+			// says a query only stores the optimal lwork in work[0]; a package panic is tolerated, a
+			// runtime.Error is not.
+			qo := core.Call(func() { f(&q) })
+			st.nilQueries++
+			opt := 1 << 12
+			if !qo.Panicked {
+				opt = int(q.fl["work"][0])
+			} else {
+				if qo.Runtime && k.Exp == "OK" {
+					fail("nil-query-runtime-error", "workspace query (lwork=-1) of a legal call with nil matrices and vectors: "+qo.Text)
+				}
+				// second attempt with operands of the lengths of the tuple
+				for _, m := range k.Mats {
+					q.fl[m.Name] = ones(m.Len)
+				}
+				for _, v := range k.Vecs {
+					q.fl[v.Name] = ones(v.Len)
+				}
+				for _, v := range k.IVecs {
+					q.iv[v.Name] = make([]int, v.Len)
+				}
+				q.fl["work"] = make([]float64, 1)
+				qo = core.Call(func() { f(&q) })
+				if !qo.Panicked {
+					opt = int(q.fl["work"][0])
+				} else if k.Exp == "OK" {
+					fail("query-rejected", "the workspace query of a legal call panicked: "+qo.Text)
+				}
+			}
+			if opt < 1 || opt > 1<<20 {
+				fail("query-value", fmt.Sprintf("workspace query returned %v", q.fl["work"][0]))
+				opt = 1 << 12
+			}
+			c.lwork = opt
+			workLen = opt + k.Work
+			if workLen < 0 {
+				workLen = 0
 			}
 		}
-		sig := fmt.Sprintf("contract:lapack:%s:%s:%s", name, kind, detail)
-		switch kind {
-		case "runtime-error", "foreign-panic", "valid-rejected", "out-of-slice-write", "hang":
-			// which code path: the flag codes and the sign pattern of the dimensions
-			sig += ":f=" + codes(k.F) + ":d=" + signs(k.D)
+
+		// operands: floats in one arena, ints in another; cap == len; canary margins around each
+		total := margin
+		for _, m := range k.Mats {
+			total += m.Len + margin
 		}
-		st.failures++
-		failed = true
-		key := sig + "|" + buildName
-		if st.seen[key] {
+		for _, v := range k.Vecs {
+			total += v.Len + margin
+		}
+		if hasWork {
+			total += workLen + margin
+		}
+		if len(larena) < total {
+			larena = make([]float64, total+1<<12)
+		}
+		ar := larena[:total]
+		canary := nan64(canaryCode)
+		for i := range ar {
+			ar[i] = canary
+		}
+		type span struct{ lo, hi int }
+		spans := map[string]span{}
+		off := margin
+		carve := func(name string, n, ld int, tau bool) {
+			s := ar[off : off+n : off+n]
+			for j := range s {
+				switch {
+				case tau:
+					s[j] = 0.5
+				case name == "d":
+					s[j] = float64(16 + (salt+j)%3) // diagonal of a tridiagonal matrix: dominant
+				case ld > 0 && j%(ld+1) == 0:
+					s[j] = float64(16 + (salt+j)%3) // strong diagonal: factorizations and solves stay regular
+				default:
+					s[j] = float64(1+(salt+3*j)%4) / 4
+				}
+			}
+			c.fl[name] = s
+			spans[name] = span{off, off + n}
+			off += n + margin
+		}
+		for _, m := range k.Mats {
+			carve(m.Name, m.Len, m.Ld, false)
+			c.ld[m.Name] = m.Ld
+		}
+		for _, v := range k.Vecs {
+			carve(v.Name, v.Len, 0, strings.HasPrefix(v.Name, "tau"))
+		}
+		if hasWork {
+			carve("work", workLen, 0, false)
+		}
+		itotal := margin
+		for _, v := range k.IVecs {
+			itotal += v.Len + margin
+		}
+		if len(liarena) < itotal {
+			liarena = make([]int, itotal+256)
+		}
+		iar := liarena[:itotal]
+		for i := range iar {
+			iar[i] = intCanary
+		}
+		ispans := map[string]span{}
+		ioff := margin
+		for _, v := range k.IVecs {
+			s := iar[ioff : ioff+v.Len : ioff+v.Len]
+			for j := range s {
+				s[j] = j // a legal pivot sequence (no interchange)
+			}
+			c.iv[v.Name] = s
+			ispans[v.Name] = span{ioff, ioff + v.Len}
+			ioff += v.Len + margin
+		}
+		before := append([]float64(nil), ar...)
+		ibefore := append([]int(nil), iar...)
+
+		out := core.CallTimeout(20e9, func() { f(c) })
+		if out.Hung {
+			fail("hang", out.Text)
 			return
 		}
-		st.seen[key] = true
-		sum.Fail(sig, fmt.Sprintf("%s [%s build] %s: %s", name, buildName, string(raw), msg), raw)
-	}
-
-	c := &lcall{f: k.F, d: k.D, salt: salt, fl: map[string][]float64{}, ld: map[string]int{}, iv: map[string][]int{}, inc: k.Inc, lwork: k.Lwork}
-	hasWork := k.Lwk != "none"
-	workLen := k.Work
-	if k.Lwk == "opt" {
-		// the routine's own workspace query supplies the value of lwork; the specification says how
-		// long the work slice is relative to it
-		q := *c
-		q.fl = map[string][]float64{"work": make([]float64, 1)}
-		for _, m := range k.Mats {
-			q.fl[m.Name] = nil
-			q.ld = c.ld
-		}
-		q.ld = map[string]int{}
-		for _, m := range k.Mats {
-			q.ld[m.Name] = m.Ld
-		}
-		q.lwork = -1
-		qo := core.Call(func() { f(&q) })
-		opt := 1 << 12
-		if !qo.Panicked {
-			opt = int(q.fl["work"][0])
-		} else if k.Exp == "OK" {
-			fail("query-rejected", "the workspace query of a legal call panicked: "+qo.Text)
-		}
-		if opt < 1 || opt > 1<<20 {
-			fail("query-value", fmt.Sprintf("workspace query returned %v", q.fl["work"][0]))
-			opt = 1 << 12
-		}
-		c.lwork = opt
-		workLen = opt + k.Work
-		if workLen < 0 {
-			workLen = 0
-		}
-	}
-
-	// operands: floats in one arena, ints in another; cap == len; canary margins around each
-	total := margin
-	for _, m := range k.Mats {
-		total += m.Len + margin
-	}
-	for _, v := range k.Vecs {
-		total += v.Len + margin
-	}
-	if hasWork {
-		total += workLen + margin
-	}
-	if len(larena) < total {
-		larena = make([]float64, total+1<<12)
-	}
-	ar := larena[:total]
-	canary := nan64(canaryCode)
-	for i := range ar {
-		ar[i] = canary
-	}
-	type span struct{ lo, hi int }
-	spans := map[string]span{}
-	off := margin
-	carve := func(name string, n, ld int, tau bool) {
-		s := ar[off : off+n : off+n]
-		for j := range s {
-			switch {
-			case tau:
-				s[j] = 0.5
-			case ld > 0 && j%(ld+1) == 0:
-				s[j] = float64(16 + (salt+j)%3) // strong diagonal: factorizations and solves stay regular
-			default:
-				s[j] = float64(1+(salt+3*j)%4) / 4
+		got := classify(out, []string{"lapack: "}, "gonum.org/v1/gonum/lapack")
+		if got == gotForeign {
+			if s, isStr := out.Val.(string); isStr && strings.HasPrefix(s, "blas: ") {
+				got = "PANIC_BLAS" // a BLAS argument panic escaping from a LAPACK routine
 			}
 		}
-		c.fl[name] = s
-		spans[name] = span{off, off + n}
-		off += n + margin
-	}
-	for _, m := range k.Mats {
-		carve(m.Name, m.Len, m.Ld, false)
-		c.ld[m.Name] = m.Ld
-	}
-	for _, v := range k.Vecs {
-		carve(v.Name, v.Len, 0, v.Name == "tau")
-	}
-	if hasWork {
-		carve("work", workLen, 0, false)
-	}
-	itotal := margin
-	for _, v := range k.IVecs {
-		itotal += v.Len + margin
-	}
-	if len(liarena) < itotal {
-		liarena = make([]int, itotal+256)
-	}
-	iar := liarena[:itotal]
-	for i := range iar {
-		iar[i] = intCanary
-	}
-	ispans := map[string]span{}
-	ioff := margin
-	for _, v := range k.IVecs {
-		s := iar[ioff : ioff+v.Len : ioff+v.Len]
-		for j := range s {
-			s[j] = j // a legal pivot sequence (no interchange)
-		}
-		c.iv[v.Name] = s
-		ispans[v.Name] = span{ioff, ioff + v.Len}
-		ioff += v.Len + margin
-	}
-	before := append([]float64(nil), ar...)
-	ibefore := append([]int(nil), iar...)
+		st.calls++
+		st.routines[name]++
+		st.byGot[got]++
 
-	out := core.CallTimeout(20e9, func() { f(c) })
-	if out.Hung {
-		fail("hang", out.Text)
-		return nil
-	}
-	got := classify(out, []string{"lapack: "}, "gonum.org/v1/gonum/lapack")
-	if got == gotForeign {
-		if s, isStr := out.Val.(string); isStr && strings.HasPrefix(s, "blas: ") {
-			got = "PANIC_BLAS" // a BLAS argument panic escaping from a LAPACK routine
-		}
-	}
-	st.calls++
-	st.routines[name]++
-	st.byGot[got]++
-
-	opChanged := map[string]int{}
-	workBeyond0 := false
-	canaryHit := ""
-	for i := range ar {
-		if math.Float64bits(ar[i]) == math.Float64bits(before[i]) {
-			continue
-		}
-		hit := ""
-		for nm, sp := range spans {
-			if i >= sp.lo && i < sp.hi {
-				hit = nm
-				if _, dup := opChanged[nm]; !dup {
-					opChanged[nm] = i - sp.lo
-				}
-				if nm == "work" && i > sp.lo {
-					workBeyond0 = true
-				}
-			}
-		}
-		if hit == "" && canaryHit == "" {
-			canaryHit = fmt.Sprintf("float arena element %d (outside every operand; operands at %v) was written", i, spans)
-		}
-	}
-	for i := range iar {
-		if iar[i] == ibefore[i] {
-			continue
-		}
-		hit := ""
-		for nm, sp := range ispans {
-			if i >= sp.lo && i < sp.hi {
-				hit = nm
-				if _, dup := opChanged[nm]; !dup {
-					opChanged[nm] = i - sp.lo
-				}
-			}
-		}
-		if hit == "" && canaryHit == "" {
-			canaryHit = fmt.Sprintf("int arena element %d (outside every operand) was written", i)
-		}
-	}
-	if canaryHit != "" {
-		fail("out-of-slice-write", canaryHit)
-	}
-	changed := func() string {
-		var s []string
-		for nm, i := range opChanged {
-			s = append(s, fmt.Sprintf("%s[%d]", nm, i))
-		}
-		sort.Strings(s)
-		return strings.Join(s, ",")
-	}
-
-	if k.Exp == "UNSPEC" { // no documented expectation: only the canaries are checked
-		st.unspec++
-		return nil
-	}
-	switch got {
-	case gotRuntime:
-		fail("runtime-error", fmt.Sprintf("expected %s, got a runtime.Error: %s", k.Exp, out.Text))
-		return nil
-	case gotForeign, "PANIC_BLAS":
-		st.foreignMsg[name+": "+out.Text]++
-		fail("foreign-panic", fmt.Sprintf("expected %s, got a panic that is not the package's own: %T %s", k.Exp, out.Val, out.Text))
-		return nil
-	}
-	switch k.Exp {
-	case "OK":
-		if got != gotOK {
-			if k.Lwk == "opt" && strings.Contains(out.Text, "workspace") {
-				fail("opt-lwork-rejected", fmt.Sprintf("the routine's own workspace query returned lwork=%d, which the routine then rejects: %s", c.lwork, out.Text))
-				return nil
-			}
-			fail("valid-rejected", "the contract is satisfied but the call panicked: "+out.Text)
-			return nil
-		}
-	case "PANIC":
-		if got != gotPkg {
-			fail("invalid-accepted", fmt.Sprintf("violated %v but the call returned normally (operands changed: %q)", k.Hard, changed()))
-			return nil
-		}
-	case "EITHER":
-		if got == gotOK {
-			st.eitherOK++
-		} else {
-			st.eitherPan++
-		}
-	default:
-		fail("harness", "unknown expectation "+k.Exp)
-		return nil
-	}
-	if got == gotPkg && len(opChanged) > 0 {
-		fail("write-before-panic", fmt.Sprintf("panicked (%s) after modifying %s", out.Text, changed()))
-	}
-	if got == gotOK && (k.NoWrite == 1 || k.Lwork == -1 && hasWork) {
-		// a zero-sized problem or a workspace query may write work[0] and nothing else
-		for nm, i := range opChanged {
-			if nm == "work" && i == 0 && hasWork && !workBeyond0 {
+		opChanged := map[string]int{}
+		workBeyond0 := false
+		canaryHit := ""
+		for i := range ar {
+			if math.Float64bits(ar[i]) == math.Float64bits(before[i]) {
 				continue
 			}
-			fail("write-on-noop", fmt.Sprintf("a call that addresses nothing modified %s", changed()))
-			break
+			hit := ""
+			for nm, sp := range spans {
+				if i >= sp.lo && i < sp.hi {
+					hit = nm
+					if _, dup := opChanged[nm]; !dup {
+						opChanged[nm] = i - sp.lo
+					}
+					if nm == "work" && i > sp.lo {
+						workBeyond0 = true
+					}
+				}
+			}
+			if hit == "" && canaryHit == "" {
+				canaryHit = fmt.Sprintf("float arena element %d (outside every operand; operands at %v) was written", i, spans)
+			}
+		}
+		for i := range iar {
+			if iar[i] == ibefore[i] {
+				continue
+			}
+			hit := ""
+			for nm, sp := range ispans {
+				if i >= sp.lo && i < sp.hi {
+					hit = nm
+					if _, dup := opChanged[nm]; !dup {
+						opChanged[nm] = i - sp.lo
+					}
+				}
+			}
+			if hit == "" && canaryHit == "" {
+				canaryHit = fmt.Sprintf("int arena element %d (outside every operand) was written", i)
+			}
+		}
+		if canaryHit != "" {
+			fail("out-of-slice-write", canaryHit)
+		}
+		changed := func() string {
+			var s []string
+			for nm, i := range opChanged {
+				s = append(s, fmt.Sprintf("%s[%d]", nm, i))
+			}
+			sort.Strings(s)
+			return strings.Join(s, ",")
+		}
+
+		if k.Exp == "UNSPEC" { // no documented expectation: only the canaries are checked
+			st.unspec++
+			return
+		}
+		switch got {
+		case gotRuntime:
+			fail("runtime-error", fmt.Sprintf("expected %s, got a runtime.Error: %s", k.Exp, out.Text))
+			return
+		case gotForeign, "PANIC_BLAS":
+			st.foreignMsg[name+": "+out.Text]++
+			fail("foreign-panic", fmt.Sprintf("expected %s, got a panic that is not the package's own: %T %s", k.Exp, out.Val, out.Text))
+			return
+		}
+		switch k.Exp {
+		case "OK":
+			if got != gotOK {
+				if k.Lwk == "opt" && strings.Contains(out.Text, "workspace") {
+					fail("opt-lwork-rejected", fmt.Sprintf("the routine's own workspace query returned lwork=%d, which the routine then rejects: %s", c.lwork, out.Text))
+					return
+				}
+				fail("valid-rejected", "the contract is satisfied but the call panicked: "+out.Text)
+				return
+			}
+		case "PANIC":
+			if got != gotPkg {
+				fail("invalid-accepted", fmt.Sprintf("violated %v but the call returned normally (operands changed: %q)", k.Hard, changed()))
+				return
+			}
+		case "EITHER":
+			if got == gotOK {
+				st.eitherOK++
+			} else {
+				st.eitherPan++
+			}
+		default:
+			fail("harness", "unknown expectation "+k.Exp)
+			return
+		}
+		if got == gotPkg {
+			// workspaces are scratch (several drivers store the optimal lwork in work[0] first): only
+			// genuine operands count
+			for nm := range opChanged {
+				if nm != "work" && nm != "iwork" && nm != "w" {
+					fail("write-before-panic", fmt.Sprintf("panicked (%s) after modifying %s", out.Text, changed()))
+					break
+				}
+			}
+		}
+		if got == gotOK && (k.NoWrite == 1 || k.Lwork == -1 && hasWork) {
+			// a zero-sized problem or a workspace query may write work[0] and nothing else
+			for nm, i := range opChanged {
+				if nm == "work" && i == 0 && hasWork && !workBeyond0 {
+					continue
+				}
+				fail("write-on-noop", fmt.Sprintf("a call that addresses nothing modified %s", changed()))
+				break
+			}
+		}
+		if !failed && len(k.Hard) == 1 && salt%499 == 3 {
+			sum.Sample(map[string]any{"routine": k.R, "tuple": raw})
 		}
 	}
-	if !failed && len(k.Hard) == 1 && salt%499 == 3 {
-		sum.Sample(map[string]any{"routine": k.R, "tuple": raw})
+	exec(k.R, f)
+	// the lapack64 wrapper of the routine takes the same arguments packed in blas64 structs and passes
+	// max(1, Stride) as the stride: same contract whenever every stride of the tuple is at least 1
+	if w, ok := lwtab[k.R]; ok {
+		for _, m := range k.Mats {
+			if m.Ld < 1 {
+				return nil
+			}
+		}
+		exec("lapack64."+w.name, w.f)
 	}
 	return nil
 }
@@ -450,4 +581,42 @@ func signs(d []int) string {
 		}
 	}
 	return b.String()
+}
+
+func ones(n int) []float64 {
+	s := make([]float64, n)
+	for i := range s {
+		s[i] = 1
+	}
+	return s
+}
+
+// lwtab: the lapack64 wrappers of a few routines (pure argument passing).
+var lwtab = map[string]struct {
+	name string
+	f    func(c *lcall)
+}{
+	"Dgels": {"Gels", func(c *lcall) {
+		lapack64.Gels(c.trans(0), c.general("a", c.d[0], c.d[1]), c.general("b", 0, c.d[2]), c.fl["work"], c.lwork)
+	}},
+	"Dgesvd": {"Gesvd", func(c *lcall) {
+		lapack64.Gesvd(c.svdjob(0), c.svdjob(1), c.general("a", c.d[0], c.d[1]), c.general("u", 0, 0), c.general("vt", 0, 0), c.fl["s"], c.fl["work"], c.lwork)
+	}},
+	"Dgetrf": {"Getrf", func(c *lcall) { lapack64.Getrf(c.general("a", c.d[0], c.d[1]), c.iv["ipiv"]) }},
+	"Dgetrs": {"Getrs", func(c *lcall) {
+		lapack64.Getrs(c.trans(0), c.general("a", c.d[0], c.d[0]), c.general("b", c.d[0], c.d[1]), c.iv["ipiv"])
+	}},
+	"Dgetri": {"Getri", func(c *lcall) { lapack64.Getri(c.general("a", c.d[0], c.d[0]), c.iv["ipiv"], c.fl["work"], c.lwork) }},
+	"Dgeqrf": {"Geqrf", func(c *lcall) { lapack64.Geqrf(c.general("a", c.d[0], c.d[1]), c.fl["tau"], c.fl["work"], c.lwork) }},
+	"Dlange": {"Lange", func(c *lcall) { lapack64.Lange(c.norm4(0), c.general("a", c.d[0], c.d[1]), c.fl["work"]) }},
+	"Dsyev": {"Syev", func(c *lcall) {
+		lapack64.Syev(c.evjob(0), blas64.Symmetric{Uplo: c.uplo(1), N: c.d[0], Data: c.fl["a"], Stride: c.ld["a"]}, c.fl["w"], c.fl["work"], c.lwork)
+	}},
+	"Dtrcon": {"Trcon", func(c *lcall) {
+		lapack64.Trcon(c.norm2(0), blas64.Triangular{Uplo: c.uplo(1), Diag: c.diag(2), N: c.d[0], Data: c.fl["a"], Stride: c.ld["a"]}, c.fl["work"], c.iv["iwork"])
+	}},
+}
+
+func (c *lcall) general(name string, rows, cols int) blas64.General {
+	return blas64.General{Rows: rows, Cols: cols, Data: c.fl[name], Stride: c.ld[name]}
 }
